@@ -291,3 +291,124 @@ Proof.
   destruct (dec_result_exact r (t - t0) U E4 ltac:(lia)) as (D1 & D2 & D3).
   split; [rewrite E6; exact D1|]. split; [exact D3 | exact D2].
 Qed.
+
+(* ---- expiry sweeps are invisible ------------------------------------------------------ *)
+Fixpoint uniq (c : cache) : Prop :=
+  match c with
+  | [] => True
+  | (k, _) :: r => lookup k r = None /\ uniq r
+  end.
+
+Lemma lookup_filter_none : forall f c k, lookup k c = None -> lookup k (filter f c) = None.
+Proof.
+  intros f c k. induction c as [|[k' e'] c IH]; simpl; intro H; [reflexivity|].
+  destruct (key_eqb k k') eqn:E; [discriminate|].
+  destruct (f (k', e')); simpl; [rewrite E|]; apply IH; assumption.
+Qed.
+
+Lemma uniq_filter : forall f c, uniq c -> uniq (filter f c).
+Proof.
+  intros f c. induction c as [|[k e] c IH]; simpl; intro H; [exact I|].
+  destruct H as [H1 H2]. destruct (f (k, e)); simpl; [|apply IH; assumption].
+  split; [apply lookup_filter_none; assumption | apply IH; assumption].
+Qed.
+
+Lemma uniq_insert : forall c k e, uniq c -> uniq (insert k e c).
+Proof.
+  intros c k e H. unfold insert. simpl. split; [apply lookup_remove_same | apply uniq_filter; assumption].
+Qed.
+
+Lemma uniq_handle : forall c k qc tl ti up, uniq c -> uniq (snd (fst (handle c k qc tl ti up))).
+Proof.
+  intros c k qc tl ti up H. unfold handle. destruct (negb (qc =? 1)); [exact H|].
+  destruct (get_entry c k tl); [exact H|]. simpl.
+  destruct (0 <? calculate_expiry up); [apply uniq_insert; assumption | exact H].
+Qed.
+
+Lemma lookup_expire : forall c t k, uniq c ->
+  lookup k (expire c t) =
+  match lookup k c with
+  | Some e => if t <=? e_birth e + e_life e then Some e else None
+  | None => None
+  end.
+Proof.
+  intros c t k. unfold expire. induction c as [|[k' e'] c IH]; simpl; intro U; [reflexivity|].
+  destruct U as [U1 U2]. destruct (key_eqb k k') eqn:E.
+  - apply key_eqb_eq in E. subst k'.
+    destruct (t <=? e_birth e' + e_life e'); simpl.
+    + rewrite key_eqb_refl. reflexivity.
+    + apply lookup_filter_none. assumption.
+  - destruct (t <=? e_birth e' + e_life e'); simpl; [rewrite E|]; apply IH; assumption.
+Qed.
+
+(* c1: the cache with sweeps, c2: the same history without them.  They agree except for
+   entries of c2 that ran out before T *)
+Definition sim (T : N) (c1 c2 : cache) : Prop :=
+  forall k, lookup k c1 = lookup k c2 \/
+            (lookup k c1 = None /\ exists e, lookup k c2 = Some e /\ e_birth e + e_life e < T).
+
+Lemma sim_get : forall T c1 c2 k now, sim T c1 c2 -> T <= now ->
+  get_entry c1 k now = get_entry c2 k now.
+Proof.
+  intros T c1 c2 k now S H. unfold get_entry. destruct (S k) as [E|(E1 & e & E2 & L)].
+  - rewrite E. reflexivity.
+  - rewrite E1, E2. destruct (N.leb_spec now (e_birth e + e_life e)); [lia | reflexivity].
+Qed.
+
+Lemma sim_insert : forall T c1 c2 k e, sim T c1 c2 -> sim T (insert k e c1) (insert k e c2).
+Proof.
+  intros T c1 c2 k e S k'. rewrite !lookup_insert. destruct (key_eqb k' k); [left; reflexivity | apply S].
+Qed.
+
+Lemma sim_handle : forall T c1 c2 k qc tl ti up, sim T c1 c2 -> T <= tl ->
+  fst (fst (handle c1 k qc tl ti up)) = fst (fst (handle c2 k qc tl ti up)) /\
+  snd (handle c1 k qc tl ti up) = snd (handle c2 k qc tl ti up) /\
+  sim T (snd (fst (handle c1 k qc tl ti up))) (snd (fst (handle c2 k qc tl ti up))).
+Proof.
+  intros T c1 c2 k qc tl ti up S H. unfold handle.
+  destruct (negb (qc =? 1)); [simpl; auto|].
+  rewrite (sim_get T c1 c2 k tl S H). destruct (get_entry c2 k tl); [simpl; auto|]. simpl.
+  destruct (0 <? calculate_expiry up); [|auto].
+  split; [reflexivity|]. split; [reflexivity|]. apply sim_insert. assumption.
+Qed.
+
+Lemma sim_expire : forall T c1 c2 t, uniq c1 -> sim T c1 c2 -> T <= t -> sim t (expire c1 t) c2.
+Proof.
+  intros T c1 c2 t U S H k. rewrite (lookup_expire c1 t k U).
+  destruct (S k) as [E|(E1 & e & E2 & L)].
+  - rewrite E. destruct (lookup k c2) as [e|]; [|left; reflexivity].
+    destruct (N.leb_spec t (e_birth e + e_life e)); [left; reflexivity|].
+    right. split; [reflexivity|]. exists e. split; [reflexivity | assumption].
+  - rewrite E1. right. split; [reflexivity|]. exists e. split; [assumption | lia].
+Qed.
+
+Fixpoint cop_sorted (t : N) (ops : list cop) : Prop :=
+  match ops with
+  | [] => True
+  | o :: r => t <= cop_time o /\ cop_sorted (cop_time o) r
+  end.
+
+Definition is_query (o : cop) : bool := match o with Query _ _ _ _ => true | Expire _ => false end.
+Definition strip (ops : list cop) : list cop := filter is_query ops.
+
+Lemma run_strip_sim : forall ops T c1 c2, uniq c1 -> sim T c1 c2 -> cop_sorted T ops ->
+  run c1 ops = run c2 (strip ops).
+Proof.
+  induction ops as [|o ops IH]; intros T c1 c2 U S HS; simpl; [reflexivity|].
+  destruct HS as [H1 H2]. destruct o as [k qc t up|t]; simpl in *.
+  - destruct (sim_handle T c1 c2 k qc t t up S H1) as (R1 & R2 & R3).
+    pose proof (uniq_handle c1 k qc t t up U) as U'.
+    destruct (handle c1 k qc t t up) as [[res1 c1'] a1].
+    destruct (handle c2 k qc t t up) as [[res2 c2'] a2]. simpl in *. subst res2 a2.
+    f_equal. apply (IH t); try assumption.
+    intro k'. destruct (R3 k') as [E|(E1 & e & E2 & L)]; [left; assumption|].
+    right. split; [assumption|]. exists e. split; [assumption | lia].
+  - apply (IH t); [apply uniq_filter; assumption | eapply sim_expire; eassumption | assumption].
+Qed.
+
+(* a history with non-decreasing times, from the empty cache: the expiry sweeps change no
+   observation *)
+Lemma expire_invisible : forall ops, cop_sorted 0 ops -> run [] ops = run [] (strip ops).
+Proof.
+  intros ops H. apply (run_strip_sim ops 0 [] []); [exact I | intro k; left; reflexivity | assumption].
+Qed.
